@@ -18,6 +18,14 @@ CHECKS = {
    text="every accepted input of the host corpus (semantic struct cases + feature-interaction products for structs, enums and enum->primitive hosts, ~1M inputs thorough) must expand to a token stream that parses (syn 2 full) as impl items only, each of one of the six traits with exactly one fn of the documented name/signature and `type Error` iff fallible",
    note="`parses` is judged by syn 2 here; rustc judges the compiled properties (C01-C03, C07, C11, C20); corpus expressions/types/patterns are well-formed by construction",
    technique=TECH_X + " + structural inspection of the output through a real parser"),
+ "C05": dict(level="model_checking", design="DESIGN.md §8 C05",
+   text="one member mapped to two counterparts with all 12 kinds each (24 impls) x every sequence of <= 3 member instructions (21 mapping names x {default, dedicated T, dedicated U} + 3 ghost names x 3) in every order, unique marker per instruction: (1) the impl of every (kind, fallibility, counterpart) contains exactly the marker of the instruction the precedence model M_prec designates; (2) removing any instruction leaves every impl where it is not the winner token-identical",
+   note="M_prec transcribed from the C05 statement; impls located by (trait, Self, argument) through a real parser; runtime cross-check of winners is part of C01/C07's compiled spaces",
+   technique=TECH_X + " + comparison with a reference precedence model and a metamorphic non-interference oracle"),
+ "C14": dict(level="model_checking", design="DESIGN.md §8 C14",
+   text="a reference state machine M_rep (3 states per member list, one template slot per trait-instruction name) computes the written-out input for every event sequence (plain / own / repeat(cats) / skip_repeat / stop_repeat / stop+repeat; permeating and not; variant level; trait level with vars/update/return/default-case) up to the bound; the real expansion of the input with repeat must be token-identical to the real expansion of the written-out input",
+   note="M_rep written from the statement and README; conflicting sequences are pruned (C15 covers their diagnostics); bounds: <= 4 (5) struct members, <= 3 variants x 3 fields, <= 4 trait instructions",
+   technique="explicit enumeration of event sequences of a reference state machine + conformance of every trace against the real implementation (token equality)"),
  "C06": dict(level="exploration", design="DESIGN.md §8 C06",
    text="every accepted two-counterpart input of the feature-interaction corpus: for each counterpart X the impls whose trait argument is X must be token-identical to the complete expansion of the projected input (all instructions for / dedicated to the other counterpart deleted) - the implementation is its own reference",
    note="impls are attributed to a counterpart by the trait's type argument; bounded: <= 3 members, 2 counterparts, deviation bound 4 (quick) / 6 (thorough)",
